@@ -221,10 +221,11 @@ def programs_noncontig(tier):
     ])], props=("C04", "C11", "C16")))
     progs.append(Program("nc16f", structs=[S("nc16f", 16, [
         F("perm", T_u(16), [(0, 4), (12, 4), (4, 8)]),           # FULL-width permutation whose first entry starts at bit 0
-    ])], props=("C04", "C16", "C13")))
+    ])], props=("C04", "C16", "C13", "C12")))
     progs.append(Program("nc32f", structs=[S("nc32f", 32, [
         F("swapped", T_u(32), [(0, 8), (16, 8), (8, 8), (24, 8)]),   # full-width, middle bytes swapped
-    ])], props=("C04", "C16")))
+        F("b1", T_u(8), (8, 8)),                                      # overlapping byte view (no builder)
+    ])], props=("C04", "C16", "C12")))
     progs.append(Program("ncadj", structs=[S("ncadj", 32, [
         F("a", T_u(8), [(0, 4), (4, 4)]),                         # adjacent consecutive entries (could be one range, but is declared as two)
         F("b", T_u(8), [(20, 4), (12, 1), (13, 3)]),              # single bit followed by the multi-bit entry that continues it
